@@ -317,3 +317,51 @@ fn c01_o3_tracked_field_change_test() {
     kani::cover!(frev <= q);
     std::mem::forget(w);
 }
+
+// ---- cost probes (prop=NONE; not part of any claim) ----
+
+// @verif prop=NONE obl=X tier=thorough bounds="probe: cost of world()"
+#[kani::proof]
+#[kani::unwind(5)]
+#[kani::stub(real_catch_unwind, stub_catch_unwind)]
+fn x_ts_world_only() {
+    let w = world((1, 2), Some(1), Durability::LOW, 1);
+    assert!(peek(&w).fields == (1, 2));
+    std::mem::forget(w);
+}
+
+// @verif prop=NONE obl=X tier=thorough bounds="probe: cost of a page of Value<VTr> without the ingredient and without Zalsa"
+#[kani::proof]
+#[kani::unwind(5)]
+#[kani::stub(real_catch_unwind, stub_catch_unwind)]
+fn x_ts_page_only() {
+    let table = crate::table::Table::default();
+    let types = Arc::new(MemoTableTypes::default());
+    let page = table.push_page::<Value<VTr>>(IngredientIndex::new(0), types.clone());
+    // SAFETY: single-threaded.
+    let id = match unsafe {
+        table.page::<Value<VTr>>(page).allocate(page, |_| Value::<VTr> {
+            updated_at: OptionalAtomicRevision::new(Some(Revision::start())),
+            durability: Durability::LOW,
+            revisions: [AtomicRevision::new(Revision::start())],
+            fields: (1, 2),
+            memos: MemoTable::new(&types),
+        })
+    } {
+        Ok((id, _)) => id,
+        Err(_) => panic!(),
+    };
+    let v: &Value<VTr> = table.get(id);
+    assert!(v.fields == (1, 2));
+    std::mem::forget(table);
+}
+
+// @verif prop=NONE obl=X tier=thorough bounds="probe: cost of IngredientImpl::<VTr>::new alone"
+#[kani::proof]
+#[kani::unwind(5)]
+#[kani::stub(real_catch_unwind, stub_catch_unwind)]
+fn x_ts_ingredient_only() {
+    let ing = IngredientImpl::<VTr>::new(IngredientIndex::new(0));
+    assert!(ing.ingredient_index.as_u32() == 0);
+    std::mem::forget(ing);
+}
